@@ -35,6 +35,11 @@ def c_op(op):
     k = op[0]
     if k == "Open":
         return f"C29.Open {c_path(op[1])} C29.{op[2]} {clist(str(ord(ch)) for ch in op[3])}"
+    if k == "OsOpen":
+        acc, creat, excl, trunc, append, tmpfile = op[2]
+        fl = ("{| C29.acc := C29.%s; C29.o_creat := %s; C29.o_excl := %s; C29.o_trunc := %s; C29.o_append := %s; "
+              "C29.o_tmpfile := %s |}") % (acc, *(vlib.cbool(b) for b in (creat, excl, trunc, append, tmpfile)))
+        return f"C29.OsOpen {c_path(op[1])} {fl} {clist(str(ord(ch)) for ch in op[3])}"
     if k in ("Mkdir", "Makedirs"):
         return f"C29.{k} {c_path(op[1])} {vlib.cbool(op[2])}"
     if k in ("Rename", "CopyFile", "Copy", "Move"):
@@ -77,6 +82,8 @@ def _norm_case2(c):
         o[1] = tuple(o[1])
         if o[0] in ("Rename", "CopyFile", "Copy", "Move"):
             o[2] = tuple(o[2])
+        if o[0] == "OsOpen":
+            o[2] = (o[2][0],) + tuple(bool(b) for b in o[2][1:])
         ops.append(tuple(o))
     return init, ops
 
@@ -199,7 +206,8 @@ def run(ctx: vlib.Ctx):
     init, ops, _sib = cases[k0]
     ctx.sample({"init": [[list(p), n] for p, n in init], "ops": [repr(o) for o in ops],
                 "results": [s[1] for s in recs[k0]["steps"]], "created_at_end": [list(p) for p in (recs[k0]["steps"][-1][2] if recs[k0]["steps"] else [])]})
-    ctx.cov["rule"] = ("random sequences of 2..12 operations (open r/w/a/x/r+ via builtins.open, io.open, Path.open, os.open, "
+    ctx.cov["rule"] = ("random sequences of 2..12 operations (open r/w/a/x/r+ via builtins.open, io.open, Path.open, os.open; os.open with "
+                       "arbitrary flag sets incl. O_TRUNC/O_EXCL/O_APPEND/O_CREAT/O_TMPFILE without a write access mode; "
                        "Path.write_text/bytes; touch; mkdir/makedirs with exist_ok; rename/replace; copyfile/copy/copy2/move; "
                        "remove/unlink/rmdir/rmtree) over sandbox trees with pre-existing files and directories, plus the "
                        "minimised-failure corpus; non-trivial = at least one executed operation; distinct = distinct (tree, ops)")
